@@ -9,34 +9,27 @@ namespace Varlink.Life
 inductive Rel (w : World) : Label → World → Prop where
   | spawn (kind : Kind) (tmo : Bool) (addr : Option Nat) :
       Rel w (.spawn kind tmo addr) { w with calls := w.calls ++ [{ kind, tmo, addr, pc := firstPc kind }] }
-  -- Bind
+  -- Bind / Listen: one critical section
   | bindRefused {k : Nat} {c : Call} (hk : w.calls[k]? = some c) (hpc : c.pc = .bindCheck) (hr : w.running = true) :
       Rel w (.call k) (w.setCall k { c with pc := .returned, ret := some .errRunning })
-  | bindPass {k : Nat} {c : Call} (hk : w.calls[k]? = some c) (hpc : c.pc = .bindCheck) (hr : w.running = false) :
-      Rel w (.call k) (w.setCall k { c with pc := .parse })
-  | parseBad {k : Nat} {c : Call} (hk : w.calls[k]? = some c) (hpc : c.pc = .parse) (ha : c.addr = none) :
+  | bindParseBad {k : Nat} {c : Call} (hk : w.calls[k]? = some c) (hpc : c.pc = .bindCheck) (hr : w.running = false)
+      (ha : c.addr = none) :
       Rel w (.call k) (w.setCall k { c with pc := .returned, ret := some .errParse })
-  | parseOk {k : Nat} {c : Call} {a : Nat} (hk : w.calls[k]? = some c) (hpc : c.pc = .parse) (ha : c.addr = some a) :
-      Rel w (.call k) (({ w with addrF := some a } : World).setCall k { c with pc := .listenSys })
-  | listenBusy {k : Nat} {c : Call} {a : Nat} (hk : w.calls[k]? = some c) (hpc : c.pc = .listenSys)
+  | bindBusy {k : Nat} {c : Call} {a : Nat} (hk : w.calls[k]? = some c) (hpc : c.pc = .bindCheck) (hr : w.running = false)
       (ha : c.addr = some a) (hu : addrInUse w a = true) :
-      Rel w (.call k) (w.setCall k { c with pc := .returned, ret := some .errListen })
-  | listenOk {k : Nat} {c : Call} {a : Nat} (hk : w.calls[k]? = some c) (hpc : c.pc = .listenSys)
-      (ha : c.addr = some a) (hu : addrInUse w a = false) :
-      Rel w (.call k) (({ w with lsnrs := w.lsnrs ++ [{ addr := a }] } : World).setCall k
-                        { c with pc := .store, l := some w.lsnrs.length })
-  | storeBind {k : Nat} {c : Call} (hk : w.calls[k]? = some c) (hpc : c.pc = .store) (hkd : c.kind = .bind) :
-      Rel w (.call k) (({ w with lst := c.l } : World).setCall k { c with pc := .returned, ret := some .nil })
-  | storeServe {k : Nat} {c : Call} (hk : w.calls[k]? = some c) (hpc : c.pc = .store) (hkd : c.kind ≠ .bind) :
-      Rel w (.call k) (({ w with lst := c.l } : World).setCall k { c with pc := .setRunning })
-  -- DoListen / Listen
+      Rel w (.call k) (({ w with addrF := some a } : World).setCall k { c with pc := .returned, ret := some .errListen })
+  | bindOk {k : Nat} {c : Call} {a : Nat} (hk : w.calls[k]? = some c) (hpc : c.pc = .bindCheck) (hr : w.running = false)
+      (ha : c.addr = some a) (hu : addrInUse w a = false) (hkd : c.kind = .bind) :
+      Rel w (.call k) ((bound w a).setCall k { c with pc := .returned, l := some w.lsnrs.length, ret := some .nil })
+  | listenOk {k : Nat} {c : Call} {a : Nat} (hk : w.calls[k]? = some c) (hpc : c.pc = .bindCheck) (hr : w.running = false)
+      (ha : c.addr = some a) (hu : addrInUse w a = false) (hkd : c.kind ≠ .bind) :
+      Rel w (.call k) (({ bound w a with running := true } : World).setCall k
+                        { c with pc := .loopCheck, l := some w.lsnrs.length })
+  -- DoListen: one critical section
   | readNone {k : Nat} {c : Call} (hk : w.calls[k]? = some c) (hpc : c.pc = .readLst) (hl : w.lst = none) :
       Rel w (.call k) (w.setCall k { c with pc := .teardown, ret := some .errNoListener })
   | readSome {k : Nat} {c : Call} {l : Nat} (hk : w.calls[k]? = some c) (hpc : c.pc = .readLst) (hl : w.lst = some l) :
-      Rel w (.call k) (w.setCall k { c with pc := .setRunning, l := some l })
-  | setRunning {k : Nat} {c : Call} (hk : w.calls[k]? = some c) (hpc : c.pc = .setRunning) :
-      Rel w (.call k) (({ w with running := true } : World).setCall k
-                        { c with pc := .loopCheck, l := if c.kind = .listen then w.lst else c.l })
+      Rel w (.call k) (({ w with running := true } : World).setCall k { c with pc := .loopCheck, l := some l })
   | loopGo {k : Nat} {c : Call} (hk : w.calls[k]? = some c) (hpc : c.pc = .loopCheck) (hr : w.running = true) :
       Rel w (.call k) (w.setCall k { c with pc := if c.tmo then .refresh else .inAccept })
   | loopStop {k : Nat} {c : Call} (hk : w.calls[k]? = some c) (hpc : c.pc = .loopCheck) (hr : w.running = false) :
@@ -123,34 +116,28 @@ theorem rel_of_stepCall {w w' : World} {k : Nat} (hs : stepCall w k = some w') :
     simp only [hk] at hs
     cases hpc : c.pc <;> simp only [hpc] at hs
     case bindCheck =>
-      split at hs <;> (simp only [Option.some.injEq] at hs; subst hs)
-      · exact .bindRefused hk hpc ‹_›
-      · exact .bindPass hk hpc (by simpa using ‹¬ w.running = true›)
-    case parse =>
-      cases ha : c.addr <;> simp only [ha, Option.some.injEq] at hs <;> subst hs
-      · have := Rel.parseBad hk hpc ha; simpa [ha] using this
-      · have := Rel.parseOk hk hpc ha; simpa [ha] using this
-    case listenSys =>
-      cases ha : c.addr with
-      | none => simp [ha] at hs
-      | some a =>
-        simp only [ha] at hs
-        split at hs <;> (simp only [Option.some.injEq] at hs; subst hs)
-        · have := Rel.listenBusy hk hpc ha ‹_›; simpa [ha] using this
-        · have := Rel.listenOk hk hpc ha (by simpa using ‹¬ addrInUse w a = true›); simpa [ha] using this
-    case store =>
-      cases hkd : c.kind <;> simp only [hkd, Option.some.injEq] at hs <;> subst hs
-      · have := Rel.storeServe hk hpc (by simp [hkd]); simpa [hkd] using this
-      · have := Rel.storeServe hk hpc (by simp [hkd]); simpa [hkd] using this
-      · have := Rel.storeBind hk hpc hkd; simpa [hkd] using this
+      split at hs
+      · simp only [Option.some.injEq] at hs; subst hs
+        exact .bindRefused hk hpc ‹_›
+      · have hr : w.running = false := by simpa using ‹¬ w.running = true›
+        cases ha : c.addr with
+        | none =>
+          simp only [ha, Option.some.injEq] at hs; subst hs
+          have := Rel.bindParseBad hk hpc hr ha; simpa [ha] using this
+        | some a =>
+          simp only [ha] at hs
+          split at hs
+          · simp only [Option.some.injEq] at hs; subst hs
+            have := Rel.bindBusy hk hpc hr ha ‹_›; simpa [ha] using this
+          · have hu : addrInUse w a = false := by simpa using ‹¬ addrInUse w a = true›
+            cases hkd : c.kind <;> simp only [hkd, Option.some.injEq] at hs <;> subst hs
+            · have := Rel.listenOk hk hpc hr ha hu (by simp [hkd]); simpa [ha, hkd] using this
+            · have := Rel.listenOk hk hpc hr ha hu (by simp [hkd]); simpa [ha, hkd] using this
+            · have := Rel.bindOk hk hpc hr ha hu hkd; simpa [ha, hkd] using this
     case readLst =>
       cases hl : w.lst <;> simp only [hl, Option.some.injEq] at hs <;> subst hs
       · exact .readNone hk hpc hl
-      · exact .readSome hk hpc hl
-    case setRunning =>
-      simp only [Option.some.injEq] at hs; subst hs
-      have := Rel.setRunning hk hpc
-      cases hkd : c.kind <;> simpa [hkd] using this
+      · have := Rel.readSome hk hpc hl; simpa [hl] using this
     case loopCheck =>
       split at hs <;> (simp only [Option.some.injEq] at hs; subst hs)
       · exact .loopGo hk hpc ‹_›
